@@ -221,3 +221,63 @@ Section ArrivalCover.
     - assert (H3 := add_watch_pend C _ _ _ _ _ _ _ Hadd). assert (H4 := cgo_pend C (w_fs wn) _ _ _ _ _ Hg). congruence.
   Qed.
 End ArrivalCover.
+
+(* the statement of Props/C02.v *)
+Theorem burst_arrival_cover C w k r p rest : c_faults C = [] -> c_fix_simulate C = true ->
+  RSync C w k r -> npath p -> c_recursive C = true -> scope C p -> N.land IN_CREATE (c_mask C) <> 0%N ->
+  Forall (below_op p) rest ->
+  forall w1, apply_op w (Mkdir p) = Some w1 ->
+  let KB := fst (burst_end k w (Mkdir p :: rest)) in let wn := snd (burst_end k w (Mkdir p :: rest)) in
+  length (k_queue KB) = 1%nat /\
+  exists r' k' raws, read_batch C (w_fs wn) (r, drainq KB, []) (k_queue KB) = Done (r', k', raws) /\
+    RSync C wn k' r' /\ Cover C (w_fs wn) k' r'.
+Proof.
+  intros Hf Hs S Np Hrec Sp Hm Hrest w1 Ha KB wn.
+  destruct (arrival_cover C Hf Hs w k r p rest S Np Hrec Sp Hm Hrest w1 Ha) as (r' & k' & raws & Hrd & S' & Hl).
+  split; [exact Hl|]. exists r', k', raws. split; [exact Hrd|]. split; [exact S' | exact (rs_cover _ _ _ _ S')].
+Qed.
+
+(* ================================================================== an instance *)
+(* world w0 of CoverProofs: /s/R (watched, empty), /s/O, /s/O/d, /s/O/d/e.
+   Burst: mkdir R/d; mkdir R/d/e; touch R/d/e/f; touch R/d/g - one record in the kernel queue *)
+Definition ba_d : bytes := sub pR 100.
+Definition ba_e : bytes := sub ba_d 101.
+Definition ba_f : bytes := sub ba_e 102.
+Definition ba_g : bytes := sub ba_d 103.
+Definition ba_rest : list op := [Mkdir ba_e; Touch ba_f; Touch ba_g].
+
+Lemma ba_rest_below : Forall (below_op ba_d) ba_rest.
+Proof.
+  assert (GR : gpath pR) by (split; [discriminate | reflexivity]).
+  assert (ND : npath ba_d) by (apply npath_sub; [exact GR | reflexivity]).
+  assert (NE : npath ba_e) by (apply npath_sub; [now apply npath_gpath | reflexivity]).
+  repeat constructor; cbn [below_op]; try (vm_compute; reflexivity).
+  - exact NE.
+  - apply npath_sub; [now apply npath_gpath | reflexivity].
+  - apply npath_sub; [now apply npath_gpath | reflexivity].
+Qed.
+
+Lemma arrival_example :
+  exists r0 k0, construct (cfgx true true) kinit (w_fs w0) = Some (r0, k0) /\
+    let KB := fst (burst_end k0 w0 (Mkdir ba_d :: ba_rest)) in let wn := snd (burst_end k0 w0 (Mkdir ba_d :: ba_rest)) in
+    length (k_queue KB) = 1%nat /\
+    exists r' k' raws, read_batch (cfgx true true) (w_fs wn) (r0, drainq KB, []) (k_queue KB) = Done (r', k', raws) /\
+      RSync (cfgx true true) wn k' r' /\ Cover (cfgx true true) (w_fs wn) k' r' /\
+      length (k_watches k') = 3%nat /\ map r_path raws = [ba_d; ba_e; ba_g; ba_f] /\
+      fexists ba_f (w_fs wn) = true /\ fexists ba_g (w_fs wn) = true.
+Proof.
+  destruct (construct_cover (cfgx true true) eq_refl w0 w0_wf eq_refl) as (r & k & Hc & I & Cv & Hq & _ & Hp).
+  assert (S : RSync (cfgx true true) w0 k r).
+  { constructor; try assumption; [exact w0_wf|]. eexists. split; [left; reflexivity | split; reflexivity]. }
+  exists r, k. split; [exact Hc|]. cbv zeta.
+  assert (GR : gpath pR) by (split; [discriminate | reflexivity]).
+  assert (ND : npath ba_d) by (apply npath_sub; [exact GR | reflexivity]).
+  assert (SD : scope (cfgx true true) ba_d) by (right; vm_compute; reflexivity).
+  assert (Hm : N.land IN_CREATE (c_mask (cfgx true true)) <> 0%N) by (vm_compute; discriminate).
+  destruct (arrival_cover (cfgx true true) eq_refl eq_refl w0 k r ba_d ba_rest S ND eq_refl SD Hm ba_rest_below _ eq_refl)
+    as (r' & k' & raws & Hrd & S' & Hlen).
+  split; [exact Hlen|]. exists r', k', raws. split; [exact Hrd|]. split; [exact S'|]. split; [exact (rs_cover _ _ _ _ S')|].
+  assert (Hc' := Hc). vm_compute in Hc'. inversion Hc'; subst r k. clear Hc'.
+  assert (Hrd' := Hrd). vm_compute in Hrd'. inversion Hrd'. subst r' k' raws.
+  split; [reflexivity|]. split; [reflexivity|]. split; vm_compute; reflexivity.
+Qed.
